@@ -1051,6 +1051,14 @@ def c12(chk):
     # ... and the same programs with nobody holding the goroutines back, inline and through the gRPC client
     conc_check(chk, programs_c12(), 30 if quick else 400, 10 if quick else 120, 2, family_owner="C12",
                free=(programs_c12(), 6 if quick else 100))
+    # a writer megabytes ahead of a storing side that runs out of space (SetRetry.tla scenarios through Create with 3 MiB more)
+    os.environ["VERIF_FAULTS_BIGCREATE"] = "1"
+    try:
+        spec_stage(chk, "create_ahead_of_failing_store", "SetRetry.tla", dict(Roots={1, 2}, NChunks=2, Variant="repaired" if fixed_sig("nospace-partial-write-duplicated") else "asfound"),
+                   view=None, emit="Emit", invariants=("XSuccessIsExact", "XContinuesElsewhere"), properties=(), exe="faults", fs=False, chunk=12,
+                   sample=60 if quick else 600)
+    finally:
+        os.environ.pop("VERIF_FAULTS_BIGCREATE", None)
     # files held open for writing across other operations, several at once (FsDb.tla WOpen / WClose), both clients
     l1_stage(chk, "interleaved_creates", dict(Keys=K2, MaxTx=1, MaxSteps=6 if quick else 7, Levels={"RC"}, Ops={"set", "begin", "commit", "writer"}),
              mode="both", keep=has("wclose"), sample=1200 if quick else 20000)
